@@ -101,6 +101,22 @@ class Case:
         }
         if L == "block.multi_tags":
             b.create_data_array("posarr", "t", data=[1., 2.])
+            other.create_data_array("posarr", "t", data=[1., 2.])
+        # an entity of the same kind and NAME under another parent: it is not a member
+        ob = lambda f: f.blocks["other"]      # noqa
+        self.twin = {
+            "block.data_arrays": lambda f, n: ob(f).create_data_array(n, "t", data=[1.]),
+            "block.data_frames": lambda f, n: ob(f).create_data_frame(n, "t", col_dict=OrderedDict([("a", int)])),
+            "block.tags": lambda f, n: ob(f).create_tag(n, "t", [0.]),
+            "block.multi_tags": lambda f, n: ob(f).create_multi_tag(n, "t", ob(f).data_arrays["posarr"]),
+            "block.groups": lambda f, n: ob(f).create_group(n, "t"),
+            "block.sources": lambda f, n: ob(f).create_source(n, "t"),
+            "source.sources": lambda f, n: f.blocks["blk"].sources["src0"].sources["nested"].create_source(n, "t"),
+            "source.sources.deep": lambda f, n: ob(f).create_source(n, "t"),
+            "section.sections": lambda f, n: f.sections["sec"].sections["nested"].create_section(n, "t"),
+            "section.sections.deep": lambda f, n: f.create_section(n, "t"),
+            "section.props": lambda f, n: f.sections["sec"].create_property(n, [1]),
+        }.get(L)
         if L in simple:
             return simple[L][0], simple[L][1], None
         # link lists and features: pre-create the targets with hostile names
@@ -346,6 +362,26 @@ class Case:
                         self.bad("delete_by_%s_raises_%s" % (how, type(ex).__name__), nc, name=str(n)[:40], error=repr(ex)[:200])
                         break
                 self.check(cont, model, "step%d:%s" % (si, op))
+            # a same-named entity under another parent is not a member (and does not make the member disappear)
+            if getattr(self, "twin", None) is not None and model:
+                for n, id_ in rng.sample(model, min(3, len(model))):
+                    try:
+                        tw = self.twin(f, n)
+                    except Exception:
+                        ctx.count("twin_not_created")
+                        continue
+                    ctx.count("same_name_non_members_tested")
+                    nc = nameclass(n)
+                    try:
+                        if tw in cont:
+                            self.bad("same_named_entity_of_another_parent_tests_present", nc, name=n[:40])
+                        if tw.id in cont:
+                            self.bad("id_of_non_member_tests_present", nc, name=n[:40])
+                        if cont[n].id != id_:
+                            self.bad("by_name_wrong", nc, name=n[:40], at="after_twin")
+                    except Exception as ex:
+                        self.bad("membership_raises_%s" % type(ex).__name__, nc, name=n[:40], error=repr(ex)[:200])
+                self.check(cont, model, "after_twins")
             # whole-file id uniqueness on the raw file, then reopen
             f.close()
             import h5py
